@@ -204,6 +204,16 @@ func TestBoundedC16(t *testing.T) {
 		}
 	}
 	gen(nil)
+	// two batches in one source, separated by an ordinary instruction: each expands on its own
+	for i, m1 := range menus {
+		for j, m2 := range menus {
+			if !thorough && (i%3 != 0 && j%3 != 0) {
+				continue
+			}
+			check(m1.src+"MOVE foo\n"+m2.src, m1.pre+"HALT\n"+m1.post+"MOVE foo\n"+m2.pre+"HALT\n"+m2.post, []string{m1.sel, m2.sel})
+			check(m1.src+"MOVE foo\n"+m2.src+"MOVE bar\n", m1.pre+"HALT\n"+m1.post+"MOVE foo\n"+m2.pre+"HALT\n"+m2.post+"MOVE bar\n", []string{m1.sel, m2.sel})
+		}
+	}
 	// numSize (floating point, assumed by the proof part): the number of bytes of n.
 	// thorough: every n in 1..2^32-1 (complete for this function); quick: 4096 values
 	// around every power of 256 and every 4099th value.
@@ -271,7 +281,7 @@ func TestBoundedC16(t *testing.T) {
 		}
 	}
 	out, _ := json.Marshal(map[string]interface{}{"cases": cases, "numsize_arguments_checked": nsChecked, "classes": classes, "examples": examples, "unexpected": unexpected,
-		"bound": fmt.Sprintf("%d single lines (every opcode; %d symbols, %d targets, %d selectors, %d sizes, %d flags), with and without a trailing comment and a blank line; all pairs%s of %d of them; menu batches of 1..%d lines from %d menu lines, alone and followed by an instruction",
+		"bound": fmt.Sprintf("%d single lines (every opcode; %d symbols, %d targets, %d selectors, %d sizes, %d flags), with and without a trailing comment and a blank line; all pairs%s of %d of them; menu batches of 1..%d lines from %d menu lines, alone and followed by an instruction; two one-line batches separated by an instruction",
 			len(singles), len(c16Syms), len(c16Targets), len(c16Selectors), len(c16Sizes), len(c16Flags), map[bool]string{true: " and triples", false: ""}[thorough], len(reduced), maxBatch, len(menus))})
 	fmt.Printf("BOUNDED-RESULT %s\n", strings.ReplaceAll(string(out), "\n", " "))
 }
